@@ -277,6 +277,26 @@ func TestVerifByteStream(t *testing.T) {
 			}
 			// QueryWriteStatus: complete exactly when present
 			q, qerr := f.bs.QueryWriteStatus(ctx, &bytestream.QueryWriteStatusRequest{ResourceName: name})
+			qres := "err"
+			if qerr == nil {
+				qres = fmt.Sprintf("ok committed=%d complete=%d", q.CommittedSize, b2n(q.Complete))
+			}
+			rec.Op(fmt.Sprintf("bs.qws name=%s present=%d", hex.EncodeToString([]byte(name)), b2n(!miss)), qres)
+			// the same query under the other spelling of the upload name (plain <-> compressed-blobs)
+			other := strings.Replace(name, "/blobs/", "/compressed-blobs/zstd/", 1)
+			if z {
+				other = strings.Replace(name, "/compressed-blobs/zstd/", "/blobs/", 1)
+			}
+			if q2, q2err := f.bs.QueryWriteStatus(ctx, &bytestream.QueryWriteStatusRequest{ResourceName: other}); true {
+				q2res := "err"
+				if q2err == nil {
+					q2res = fmt.Sprintf("ok committed=%d complete=%d", q2.CommittedSize, b2n(q2.Complete))
+					if q2.Complete == miss || (q2.Complete && q2.CommittedSize != int64(size)) {
+						rec.Violation("C16", "bs.qws-other-name", fmt.Sprintf("QueryWriteStatus(%s) complete=%v committed=%d but present=%v size=%d", other, q2.Complete, q2.CommittedSize, !miss, size), rp)
+					}
+				}
+				rec.Op(fmt.Sprintf("bs.qws name=%s present=%d", hex.EncodeToString([]byte(other)), b2n(!miss)), q2res)
+			}
 			if qerr == nil {
 				if q.Complete == miss || (q.Complete && q.CommittedSize != int64(size)) || (!q.Complete && q.CommittedSize != 0) {
 					rec.Violation("C16", "bs.qws", fmt.Sprintf("QueryWriteStatus complete=%v committed=%d but present=%v size=%d", q.Complete, q.CommittedSize, !miss, size), rp)
